@@ -361,6 +361,15 @@ Section Arr2.
       + rewrite native_from_slim_from by exact H'. now rewrite zero_fill_idem.
   Qed.
 
+  (* what a stored array writes is its logical content, flipped when the flag is on, under the cards of its scales *)
+  Theorem sarr_hdu_logical nbo flip a : sarr_wf a ->
+    sarr_hdu_for_output nbo flip a = FOk (hdu_for_output_from_2d flip (logical a) (pixel_scale_header (scales2 (s_scales a)))).
+  Proof. intros H. unfold sarr_hdu_for_output. now rewrite (sarr_native_values_logical nbo a H). Qed.
+  Theorem sarr_output_logical nbo flip fs a p ow : sarr_wf a ->
+    sarr_output_to_fits nbo flip fs a p ow
+    = FOk (to_fits fs p ow [hdu_for_output_from_2d flip (logical a) (pixel_scale_header (scales2 (s_scales a)))]).
+  Proof. intros H. unfold sarr_output_to_fits. now rewrite (sarr_native_values_logical nbo a H). Qed.
+
   Theorem arr2_sim nbo is_kernel mask sc sc_read :
     hsim (class_arr2 nbo is_kernel sc_read) (class_log2 mask sc is_kernel sc_read) (rel2 mask sc).
   Proof.
@@ -504,6 +513,156 @@ Section Log2.
     - now rewrite H1, IH.
   Qed.
 End Log2.
+
+(* ================================================================== (4) Array1D: the stored buffer is slim or native by its length *)
+Section Arr1.
+  Context {O : NumOps} (L : lawful O) (Lz : forall x : T O, mul O x (@zero O) = @zero O).
+  Local Notation V := (T O).
+
+  Lemma unmasked_in_le (m : list bool) : (unmasked_in m <= length m)%nat.
+  Proof. unfold unmasked_in. induction m as [|b m IH]; cbn; [lia|]. destruct b; cbn; lia. Qed.
+  (* a mask without masked pixels *)
+  Lemma full_slim_row (m : list bool) : unmasked_in m = length m -> forall v : list V, length v = length m -> slim_row m v = v.
+  Proof.
+    unfold unmasked_in. induction m as [|b m IH]; intros Hf [|x v] Hl; cbn in Hl; try discriminate; [reflexivity|].
+    injection Hl as Hl. pose proof (unmasked_in_le m) as Hle. unfold unmasked_in in Hle.
+    destruct b; cbn [filter negb length] in Hf; [lia|]. cbn [slim_row]. f_equal. apply IH; [lia|exact Hl].
+  Qed.
+  Lemma full_nth (m : list bool) : unmasked_in m = length m -> forall k, (k < length m)%nat -> nth k m true = false.
+  Proof.
+    unfold unmasked_in. induction m as [|b m IH]; intros Hf k Hk; cbn in Hk; [lia|].
+    pose proof (unmasked_in_le m) as Hle. unfold unmasked_in in Hle.
+    destruct b; cbn [filter negb length] in Hf; [lia|]. destruct k; [reflexivity|]. cbn [nth]. apply IH; lia.
+  Qed.
+  Lemma full_set_unmasked_row (m : list bool) : unmasked_in m = length m -> forall (r : list V) k v,
+    set_unmasked_row m r k v = if (k <? length m)%nat then upd_at r k (fun _ => v) else r.
+  Proof.
+    unfold unmasked_in. induction m as [|b m IH]; intros Hf r k v.
+    - cbn. now destruct r.
+    - pose proof (unmasked_in_le m) as Hle. unfold unmasked_in in Hle.
+      destruct b; cbn [filter negb length] in Hf; [lia|]. destruct r as [|x r]; [cbn [set_unmasked_row upd_at]; now destruct (k <? length (false :: m))%nat|].
+      cbn [set_unmasked_row]. destruct k; [reflexivity|]. rewrite IH by lia. cbn [upd_at length].
+      change (S k <? S (length m))%nat with (k <? length m)%nat. now destruct (k <? length m)%nat.
+  Qed.
+  Lemma upd_at_beyond {B} (l : list B) : forall k f, (length l <= k)%nat -> upd_at l k f = l.
+  Proof. induction l as [|b l IH]; intros [|k] f Hk; cbn in *; try lia; auto. f_equal. apply IH. lia. Qed.
+
+  Lemma zero_fill_row_map (f : V -> V) m (r : list V) : zero_fill_row m (map f r) = zero_fill_row m (map f (zero_fill_row m r)).
+  Proof. rewrite !map_as_map2. apply zero_fill_row_zip. Qed.
+  Lemma zero_fill_row_len m : forall r : list V, length r = length m -> length (zero_fill_row m r) = length m.
+  Proof. intros r H. unfold zero_fill_row. rewrite map2_length; congruence. Qed.
+
+  Definition wf1 (a : @array1d O) : Prop :=
+    length (b_vals a) = length (b_mask a) \/ length (b_vals a) = unmasked_in (b_mask a).
+  Definition rel1 (mask : list bool) (sc : V) (a : @array1d O) (g : list V) : Prop :=
+    wf1 a /\ b_mask a = mask /\ b_scale a = sc /\ Array1D_native a = g.
+
+  Lemma native1_eq (vals : list V) mask :
+    convert_array_1d vals mask true
+    = if Nat.eqb (length vals) (length mask) then zero_fill_row mask vals else fst (native_row mask vals).
+  Proof.
+    unfold convert_array_1d. destruct (Nat.eqb (length vals) (length mask)); cbn [Bool.eqb negb]; [|reflexivity].
+    apply (maskmul_row L Lz).
+  Qed.
+  Lemma slim1_eq (vals : list V) mask :
+    convert_array_1d vals mask false = if Nat.eqb (length vals) (length mask) then slim_row mask vals else vals.
+  Proof. unfold convert_array_1d. now destruct (Nat.eqb (length vals) (length mask)). Qed.
+  Lemma native1_len (vals : list V) mask : length vals = length mask \/ length vals = unmasked_in mask ->
+    length (convert_array_1d vals mask true) = length mask.
+  Proof.
+    intros H. rewrite native1_eq. destruct (Nat.eqb (length vals) (length mask)) eqn:E.
+    - apply Nat.eqb_eq in E. now apply zero_fill_row_len.
+    - apply native_row_fst_len.
+  Qed.
+  Lemma native1_idem (vals : list V) mask : length vals = length mask \/ length vals = unmasked_in mask ->
+    convert_array_1d (convert_array_1d vals mask true) mask true = convert_array_1d vals mask true.
+  Proof.
+    intros H. rewrite (native1_eq (convert_array_1d vals mask true)), (native1_len vals mask H), Nat.eqb_refl.
+    rewrite native1_eq. destruct (Nat.eqb (length vals) (length mask)); [apply zero_fill_row_idem|apply native_row_fst_zero].
+  Qed.
+  (* an elementwise operation on two buffers of the same (slim or native) length *)
+  Lemma native1_zip (f : V -> V -> V) (v1 v2 : list V) mask :
+    (length v1 = length mask \/ length v1 = unmasked_in mask) -> length v1 = length v2 ->
+    convert_array_1d (map2 f v1 v2) mask true
+    = zero_fill_row mask (map2 f (convert_array_1d v1 mask true) (convert_array_1d v2 mask true)).
+  Proof.
+    intros H Hl. rewrite !native1_eq, map2_length by exact Hl. rewrite <- Hl.
+    destruct (Nat.eqb (length v1) (length mask)) eqn:E.
+    - apply zero_fill_row_zip.
+    - apply Nat.eqb_neq in E. destruct H as [H|H]; [contradiction|].
+      rewrite native_row_zip by lia. reflexivity.
+  Qed.
+
+  Theorem arr1_sim mask sc sc_read : hsim (class_arr1 sc_read) (class_log1 mask sc sc_read) (rel1 mask sc).
+  Proof.
+    constructor.
+    - intros o a g a' [Hw [Hm [Hs Hl]]] E. cbn in E. injection E as <-. eexists. split; [reflexivity|].
+      unfold rel1, wf1, arr1_with, lop1, Array1D_native in *. cbn [b_vals b_mask b_scale]. rewrite map_length.
+      repeat split; auto. rewrite <- Hl, <- Hm, map_as_map2, (map_as_map2 _ (convert_array_1d _ _ _)).
+      now apply native1_zip.
+    - intros b a g r gr a' [Hw [Hm [Hs Hl]]] [Hw' [Hm' [Hs' Hl']]] E. cbn in E.
+      destruct (same_len1 (b_vals a) (b_vals r)) eqn:El; [|discriminate]. injection E as <-.
+      unfold same_len1 in El. apply Nat.eqb_eq in El.
+      eexists. split; [reflexivity|]. unfold rel1, wf1, arr1_with, lbop1, Array1D_native in *. cbn [b_vals b_mask b_scale].
+      rewrite map2_length by exact El. repeat split; auto. rewrite <- Hl, <- Hl', Hm', <- Hm. now apply native1_zip.
+    - intros a g a' [Hw [Hm [Hs Hl]]] E. cbn in E. injection E as <-. eexists. split; [reflexivity|].
+      unfold rel1, wf1, arr1_with, Array1D_native in *. cbn [b_vals b_mask b_scale].
+      repeat split; auto; [left; now apply native1_len|rewrite native1_idem by exact Hw; exact Hl].
+    - intros a g a' [Hw [Hm [Hs Hl]]] E. cbn in E. injection E as <-. eexists. split; [reflexivity|].
+      unfold rel1, wf1, arr1_with, Array1D_native in *. cbn [b_vals b_mask b_scale].
+      rewrite !slim1_eq. destruct (Nat.eqb (length (b_vals a)) (length (b_mask a))) eqn:E.
+      + apply Nat.eqb_eq in E. repeat split; auto.
+        * right. now apply slim_row_len.
+        * rewrite <- Hl, !native1_eq, slim_row_len by exact E. rewrite E, Nat.eqb_refl.
+          destruct (Nat.eqb (unmasked_in (b_mask a)) (length (b_mask a))) eqn:F.
+          -- apply Nat.eqb_eq in F. now rewrite full_slim_row.
+          -- rewrite <- (app_nil_r (slim_row _ _)), native_row_slim_row by exact E. reflexivity.
+      + repeat split; auto.
+    - intros k v a g a' [Hw [Hm [Hs Hl]]] E. cbn in E. unfold arr1_set in E.
+      destruct (Nat.eqb (length (b_vals a)) (length (filter negb (b_mask a)))) eqn:E1; [|discriminate].
+      destruct (k <? length (b_vals a))%nat eqn:E2; [|discriminate]. injection E as <-.
+      apply Nat.eqb_eq in E1. apply Nat.ltb_lt in E2. fold (unmasked_in (b_mask a)) in E1.
+      eexists. split; [reflexivity|]. unfold rel1, wf1, arr1_with, lset1_1, Array1D_native in *. cbn [b_vals b_mask b_scale].
+      rewrite upd_at_length. repeat split; auto. rewrite <- Hl, <- Hm, !native1_eq, upd_at_length.
+      destruct (Nat.eqb (length (b_vals a)) (length (b_mask a))) eqn:F.
+      + apply Nat.eqb_eq in F. assert (Hfull : unmasked_in (b_mask a) = length (b_mask a)) by congruence.
+        rewrite zero_fill_row_upd, full_nth, full_set_unmasked_row by (auto; lia).
+        assert (Hk : (k <? length (b_mask a))%nat = true) by (apply Nat.ltb_lt; lia). now rewrite Hk.
+      + rewrite native_row_upd by lia. assert (Hk : (k <? unmasked_in (b_mask a))%nat = true) by (apply Nat.ltb_lt; lia).
+        now rewrite Hk.
+    - intros y x v a g a' [Hw [Hm [Hs Hl]]] E. cbn in E. destruct y; [|discriminate]. unfold arr1_set in E.
+      destruct (Nat.eqb (length (b_vals a)) (length (b_mask a))) eqn:E1; [|discriminate].
+      destruct (x <? length (b_vals a))%nat eqn:E2; [|discriminate]. injection E as <-.
+      eexists. split; [reflexivity|]. unfold rel1, wf1, arr1_with, lset2_1, Array1D_native in *. cbn [b_vals b_mask b_scale].
+      rewrite upd_at_length. repeat split; auto. rewrite <- Hl, <- Hm, !native1_eq, upd_at_length, E1.
+      apply zero_fill_row_upd.
+    - intros a g n [Hw [Hm [Hs Hl]]] E. cbn in E |- *. congruence.
+    - intros flip a g h [Hw [Hm [Hs Hl]]] E. cbn in E |- *. unfold Array1D_hdu_for_output in E. congruence.
+    - intros flip fs a g p ow x [Hw [Hm [Hs Hl]]] E. cbn in E |- *. unfold Array1D_output_to_fits in E. congruence.
+    - reflexivity.
+    - reflexivity.
+  Qed.
+
+  Theorem hist1_refines sc_read sn (vals : list V) mask sc flip fs steps : length vals = length mask ->
+    let a := mkarr1 (convert_array_1d vals mask sn) mask sc in
+    no_err (hrun (class_arr1 sc_read) steps (@mkhst O _ _ a a true flip fs)) = true ->
+    hrun (class_arr1 sc_read) steps (@mkhst O _ _ a a true flip fs)
+    = hrun (class_log1 mask sc sc_read) steps (@mkhst O _ _ (zero_fill_row mask vals) (zero_fill_row mask vals) true flip fs).
+  Proof.
+    intros Hl a Hne. apply (hrun_sim _ _ _ (arr1_sim mask sc sc_read)); [|exact Hne].
+    assert (Hr : rel1 mask sc a (zero_fill_row mask vals)).
+    { unfold rel1, wf1, a, Array1D_native. cbn [b_vals b_mask b_scale]. destruct sn.
+      - rewrite native1_idem by (left; exact Hl). rewrite native1_len by (left; exact Hl).
+        repeat split; auto. rewrite native1_eq, Hl, Nat.eqb_refl. reflexivity.
+      - rewrite !slim1_eq, Hl, Nat.eqb_refl.
+        repeat split; auto; [right; now apply slim_row_len|].
+        rewrite native1_eq, slim_row_len by exact Hl.
+        destruct (Nat.eqb (unmasked_in mask) (length mask)) eqn:F.
+        + apply Nat.eqb_eq in F. now rewrite full_slim_row.
+        + rewrite <- (app_nil_r (slim_row _ _)), native_row_slim_row by exact Hl. reflexivity. }
+    unfold st_rel. cbn. auto.
+  Qed.
+End Arr1.
 
 (* x * 0 = 0 at the reals *)
 Lemma reals_mul_zero : forall x : T ROps, mul ROps x (@zero ROps) = @zero ROps.
